@@ -206,3 +206,10 @@ def fx_marker(fx):
         n = pair.compare_markers(c, "R-PAIR.marker", nm, w, Fn(fx.raw("marker::" + nm)))
         res[nm] = (n, len(c.violations))
     return res["ok_read_field"] == (2, 0) and res["bad_read_field"][0] == 2 and res["bad_read_field"][1] == 1
+
+
+def fx_probe(fx):
+    from rules import sentinel
+    c = _ctx()
+    n = sentinel.probe_past_tombstones(c, fx, "src/lib.rs", "probe::Slot::mark", {0, (1 << 64) - 1}, name_rx=r"probe::Table::\w+_insert$")
+    return n == 2 and _fires(c, "Table::bad_insert") and not _fires(c, "Table::ok_insert")
